@@ -1,5 +1,5 @@
 (* Corr/C20.v -- correspondence interface for C20 (mock-data generators). *)
-From Geff Require Export Base Dtype GraphVal Vlen Mock.
+From Geff Require Export Base Dtype GraphVal Vlen Mock MockTree.
 Open Scope list_scope.
 
 Inductive input :=
@@ -14,20 +14,24 @@ Record outcome := {
   o_mem : gview;                   (* the returned in-memory geff *)
   o_store : option gview;          (* the returned store, read back (None for create_dummy_in_mem_geff) *)
   o_struct : option (res unit);    (* validate_structure(store) *)
-  o_graph : res unit }.            (* validate_data(in_memory, ValidationConfig(graph=True)) *)
+  o_graph : res unit;              (* validate_data(in_memory, ValidationConfig(graph=True)) *)
+  o_layout : option (list (string * option (dtype * list nat))) }.
+                                   (* every member of the store: path, dtype and shape of an array (zarr API) *)
 
 Inductive obs := OOut (r : res outcome) | OConsts.
 
 Definition out_dummy (r : res geff) : res outcome :=
   match r with
   | Err e => Err e
-  | Ok g => Ok {| o_mem := mem_view g; o_store := None; o_struct := None; o_graph := graph_valid (mem_view g) |}
+  | Ok g => Ok {| o_mem := mem_view g; o_store := None; o_struct := None; o_graph := graph_valid (mem_view g);
+                  o_layout := None |}
   end.
 Definition out_mock (r : res (store * geff)) : res outcome :=
   match r with
   | Err e => Err e
   | Ok (st, g) => Ok {| o_mem := mem_view g; o_store := Some (store_view st);
-                        o_struct := Some (validate_structure st); o_graph := graph_valid (mem_view g) |}
+                        o_struct := Some (validate_structure st); o_graph := graph_valid (mem_view g);
+                        o_layout := Some (store_listing st) |}
   end.
 
 Definition model (i : input) : obs :=
@@ -66,10 +70,17 @@ Definition gview_eqb (m o : gview) : bool :=
   && dtype_eqb (gv_iddt m) (gv_iddt o) && zlist_eqb (gv_ids m) (gv_ids o)
   && dtype_eqb (gv_edt m) (gv_edt o) && list_eqb pair_eqb (gv_edges m) (gv_edges o)
   && list_eqb pview_eqb (gv_nprops m) (gv_nprops o) && list_eqb pview_eqb (gv_eprops m) (gv_eprops o).
+Definition member_eqb (a b : string * option (dtype * list nat)) : bool :=
+  String.eqb (fst a) (fst b)
+  && option_eqb (fun x y => dtype_eqb (fst x) (fst y) && natlist_eq (snd x) (snd y)) (snd a) (snd b).
+(* the members of a store have distinct paths: equal length and inclusion is equality as sets *)
+Definition layout_eqb (m o : list (string * option (dtype * list nat))) : bool :=
+  Nat.eqb (length m) (length o) && forallb (fun x => existsb (member_eqb x) m) o.
 Definition unit_res_eqb := res_eqb (fun (_ _ : unit) => true).
 Definition outcome_eqb (m o : outcome) : bool :=
   gview_eqb (o_mem m) (o_mem o) && option_eqb gview_eqb (o_store m) (o_store o)
-  && option_eqb unit_res_eqb (o_struct m) (o_struct o) && unit_res_eqb (o_graph m) (o_graph o).
+  && option_eqb unit_res_eqb (o_struct m) (o_struct o) && unit_res_eqb (o_graph m) (o_graph o)
+  && option_eqb layout_eqb (o_layout m) (o_layout o).
 
 Definition check (c : input * obs) : bool :=
   match fst c, snd c with
